@@ -11,6 +11,8 @@ if [ ! -f "$d/Cargo.toml" ]; then
   rsync -a --exclude target --exclude .git "$SRC"/ "$d"/
   cp /verif/kani/*.rs "$d/src/"
   printf '\n#[cfg(kani)]\nmod verif_kani;\n' >> "$d/src/lib.rs"
+  # kernels on module-private items: appended to the module itself (kani/inline/<module>.rs -> src/<module>.rs)
+  for f in /verif/kani/inline/*.rs; do [ -f "$f" ] && cat "$f" >> "$d/src/$(basename "$f")"; done
   [ -f "$d/src/codec/verif_kani_codec.rs" ] || true
 fi
 cd "$d"
